@@ -377,7 +377,8 @@ def discharge_intern(repo, res, rule="INTERN"):
             f = repo.fns[q]
             if f.self_ty and f.self_ty.split("<")[0] == ty:
                 callers = [g.qname for g in repo.fns.values() for c in A.walk(g.body)
-                           if c["k"] == "Call" and c["func"]["k"] == "Path" and c["func"]["path"].split("::")[-2:] == [ty, f.name]]
+                           if (c["k"] == "Call" and c["func"]["k"] == "Path" and c["func"]["path"].split("::")[-2:] == [ty, f.name])
+                           or (c["k"] == "Path" and c["path"].split("::")[-2:] == [ty, f.name])]   # also handed on as a value: `.map(InpId::from_index)`
                 callers += [g.qname for g in repo.fns.values() if g.self_ty and g.self_ty.split("<")[0] == ty for c in A.walk(g.body)
                             if c["k"] == "Call" and c["func"]["k"] == "Path" and c["func"]["path"].split("::")[-2:] == ["Self", f.name]]
                 if callers and all(any(cq.startswith(pl + "::") for pl in pools) for cq in callers):
